@@ -583,6 +583,7 @@ impl<'a, F: Field> SubAssign<&'a SparsePolynomial<F>> for DensePolynomial<F> {
             }
             self.coeffs.extend(upper_coeffs);
         }
+        self.truncate_leading_zeros();
     }
 }
 
